@@ -34,9 +34,16 @@ type ext struct {
 }
 
 func otherFile(name string) *d.FileDescriptorProto {
-	o := &dsl.File{Name: name, Pkg: "otherpkg", GettersOff: true, Messages: []*dsl.Message{
-		{Name: "Foreign", Fields: []*dsl.Field{{Name: "F", Num: 1, T: dsl.String}, {Name: "When", Num: 2, T: dsl.Int64}}},
-	}, Enums: []*dsl.EnumDecl{{Name: "ForeignKind", Values: []string{"FK_ZERO", "FK_ONE"}}}}
+	// every message and field of the unrelated file carries a leading comment, at the same
+	// message / field indices that the generated file uses
+	o := &dsl.File{Name: name, Pkg: "otherpkg", GettersOff: true, Enums: []*dsl.EnumDecl{{Name: "ForeignKind", Values: []string{"FK_ZERO", "FK_ONE"}}}}
+	for i := 0; i < 9; i++ {
+		m := &dsl.Message{Name: fmt.Sprintf("Foreign%d", i), Comment: fmt.Sprintf(" Foreign%d belongs to another file", i)}
+		for j := 0; j < 6; j++ {
+			m.Fields = append(m.Fields, &dsl.Field{Name: fmt.Sprintf("F%d", j), Num: int32(j + 1), T: dsl.String, Comment: fmt.Sprintf(" foreign comment %d/%d must never show up", i, j)})
+		}
+		o.Messages = append(o.Messages, m)
+	}
 	return o.Descriptor()
 }
 
